@@ -30,6 +30,9 @@ def find_function(relpath, qualname):
         src, tree = parse_module(relpath)
     except (OSError, SyntaxError) as e:
         raise AttachError('%s: %s' % (relpath, e))
+    deco = None
+    if '@' in qualname:
+        qualname, deco = qualname.split('@')
     parts = qualname.split('.')
     body = tree.body
     node = None
@@ -37,7 +40,12 @@ def find_function(relpath, qualname):
         node = None
         for n in body:
             if isinstance(n, (ast.FunctionDef, ast.ClassDef)) and n.name == p:
-                node = n
+                if deco is not None and i == len(parts) - 1 and isinstance(n, ast.FunctionDef):
+                    ds = [d.attr if isinstance(d, ast.Attribute) else getattr(d, 'id', '') for d in n.decorator_list]
+                    if deco not in ds:
+                        continue
+                if node is None or deco is not None or not isinstance(n, ast.FunctionDef):
+                    node = n
         if node is None:
             raise AttachError('%s::%s not found in current source' % (relpath, qualname))
         body = node.body
